@@ -3,7 +3,7 @@
    Model: Model/Server.v (handlers of harper-ls/src/backend.rs split at their awaits, at most four in
    flight, any enabled one may advance).  `lastword w u` is what the client shows for u (the most
    recent publishDiagnostics, by provenance), `expected w u` what the property demands. *)
-Require Import Base Server ServerProofs.
+Require Import Base Server ServerProofs ServerSeq ServerConc ServerClose.
 
 (* F17a — two didChange in flight, handled in the opposite order: the server's last word (and its
    doc_state) is the OLDER text.  `reorder_schedule` admits both, then runs the second to completion
@@ -76,3 +76,119 @@ Check C09_ident_refuted :
     exists a b, lastword w uA = PDiag a /\ expected w uA = PDiag b /\
                 a_text a = a_text b /\ dv_ident (a_dict a) = 0 /\ dv_ident (a_dict b) = 7.
 Print Assumptions C09_ident_refuted.
+
+(* ================================================================================================
+   What DOES hold.
+   ================================================================================================ *)
+
+(* Sequential clause, _partial: one handler at a time (run_seq), from a freshly initialised server.
+   For every history whose messages satisfy the side conditions `op_safeb` in the world they are sent
+   in (Proofs/ServerSeq.v):
+     didOpen of a document that is not open; didChange of one that is; didSave, didClose,
+     didChangeWatchedFiles, HarperIgnoreLint, HarperRecordLint: always;
+     HarperAddToUserDict x u: u is closed, has no parser, or is saved (file on disk = buffer), AND the word
+       is already there or every OTHER open document has no parser;
+     HarperAddToFileDict x u: u is closed, has no parser, is saved, or is untitled;
+     didChangeConfiguration: every open document with a parser is saved;
+     texts of source-code documents define no identifiers (t_ident = 0),
+   the last publication for every document is computed from the newest client text, the current
+   dictionary files and the current settings (linter, parser and severity alike) and the client's ignore
+   list; doc_state agrees (pubval); documents that are not open end with [].
+   Missing for the full clause: exactly the excluded cases, each refuted above (F17b-e). *)
+Theorem C09_sequential_partial : forall h c w,
+  seq_safeb h (world0 c) = true -> run_seq h (world0 c) = Some w ->
+  forall u, lastword w u = expected w u /\ pubval w u = expected w u /\
+            (lookup u (w_open w) = None -> lastword w u = PEmpty).
+Proof. exact sequential. Qed.
+Check C09_sequential_partial : forall h c w,
+  seq_safeb h (world0 c) = true -> run_seq h (world0 c) = Some w ->
+  forall u, lastword w u = expected w u /\ pubval w u = expected w u /\
+            (lookup u (w_open w) = None -> lastword w u = PEmpty).
+Print Assumptions C09_sequential_partial.
+
+(* the same in the property's words: whatever function `diag` of (text, language, dictionaries,
+   configuration, ignore list) the diagnostics are, the diagnostics shown last are diag of the newest *)
+Theorem C09_sequential_diag_partial : forall (D : Type) (diag : dargs -> D) (none : D) h c w,
+  seq_safeb h (world0 c) = true -> run_seq h (world0 c) = Some w ->
+  forall u, shown D diag none (lastword w u) = shown D diag none (expected w u).
+Proof. exact sequential_diag. Qed.
+Check C09_sequential_diag_partial : forall (D : Type) (diag : dargs -> D) (none : D) h c w,
+  seq_safeb h (world0 c) = true -> run_seq h (world0 c) = Some w ->
+  forall u, shown D diag none (lastword w u) = shown D diag none (expected w u).
+Print Assumptions C09_sequential_diag_partial.
+
+(* the hypotheses are satisfiable by a history that contains every kind of message *)
+Example C09_sequential_nonvacuous :
+  seq_safeb demo_history (world0 0) = true /\
+  exists w, run_seq demo_history (world0 0) = Some w /\
+    lastword w (UFile 0 0) = PDiag (mkargs (mktext 6 0) LMarkdown (mkdict [3] [4] 0) 2 2 2 [1]) /\
+    lastword w (UFile 0 1) = PEmpty /\ lastword w (UFile 1 0) = PEmpty.
+Proof. exact demo_history_safe. Qed.
+
+(* Concurrent clause, _partial: for EVERY interleaving of the handlers' await-to-await segments with up
+   to four handlers in flight (xrun = run restricted at admission), provided a message is admitted only
+   while no handler in flight concerns the same document, and the messages are
+   didOpen/didChange/didSave/didClose/HarperIgnoreLint/HarperRecordLint satisfying op_safeb: when
+   everything has been handled, the last word for every document is right.
+   Missing for the full clause: two handlers for one document in flight (refuted: F17a) and handlers
+   with global effects (dictionary commands, configuration changes, deletions) in flight with others. *)
+Theorem C09_exclusive_concurrency_partial : forall h w0 cs y,
+  Inv w0 -> xrun cs (init h w0) = Some y -> quiescent y ->
+  forall u, lastword (y_world y) u = expected (y_world y) u /\
+            (lookup u (w_open (y_world y)) = None -> lastword (y_world y) u = PEmpty).
+Proof. exact exclusive_concurrency. Qed.
+Check C09_exclusive_concurrency_partial : forall h w0 cs y,
+  Inv w0 -> xrun cs (init h w0) = Some y -> quiescent y ->
+  forall u, lastword (y_world y) u = expected (y_world y) u /\
+            (lookup u (w_open (y_world y)) = None -> lastword (y_world y) u = PEmpty).
+Print Assumptions C09_exclusive_concurrency_partial.
+
+(* xrun accepts only schedules of the real dispatcher; a fresh server satisfies Inv *)
+Theorem C09_exclusive_is_schedule : forall cs y y', xrun cs y = Some y' -> run cs y = Some y'.
+Proof. exact exclusive_is_schedule. Qed.
+Check C09_exclusive_is_schedule : forall cs y y', xrun cs y = Some y' -> run cs y = Some y'.
+Print Assumptions C09_exclusive_is_schedule.
+
+Theorem C09_fresh_server_inv : forall c, Inv (world0 c).
+Proof. exact inv_world0. Qed.
+Check C09_fresh_server_inv : forall c, Inv (world0 c).
+Print Assumptions C09_fresh_server_inv.
+
+Example C09_exclusive_nonvacuous :
+  exists y, xrun conc_schedule (init conc_history (world0 0)) = Some y /\ quiescentb y = true /\
+    lastword (y_world y) (UFile 0 0) = PDiag (mkargs (mktext 3 0) LMarkdown (mkdict [] [] 0) 0 0 0 [1]) /\
+    lastword (y_world y) (UFile 0 1) = PDiag (mkargs (mktext 1 0) LPlain (mkdict [] [] 0) 0 0 0 []) /\
+    lastword (y_world y) (UUntitled 0) = PEmpty.
+Proof. exact conc_schedule_runs. Qed.
+
+(* C09_close_wins: once a document is absent from doc_state (did_close and deletions remove it and
+   publish [], close_removes), then for every schedule and whatever else is in flight or queued - didChange,
+   didSave, commands, configuration changes, deletions, for any document - as long as no didOpen is in
+   flight or queued: the document stays absent, and if its last word was [] it stays []. *)
+Theorem C09_close_wins : forall cs u y y',
+  no_open_pending y -> lookup u (s_docs (y_world y)) = None -> run cs y = Some y' ->
+  lookup u (s_docs (y_world y')) = None /\
+  (lastword (y_world y) u = PEmpty -> lastword (y_world y') u = PEmpty).
+Proof. exact close_wins. Qed.
+Check C09_close_wins : forall cs u y y',
+  no_open_pending y -> lookup u (s_docs (y_world y)) = None -> run cs y = Some y' ->
+  lookup u (s_docs (y_world y')) = None /\
+  (lastword (y_world y) u = PEmpty -> lastword (y_world y') u = PEmpty).
+Print Assumptions C09_close_wins.
+
+Theorem C09_close_removes : forall l w push l' w',
+  exec IClose l w = Some (push, l', w') ->
+  lookup (l_url l) (s_docs w') = None /\ lastword w' (l_url l) = PEmpty.
+Proof. exact close_removes. Qed.
+Check C09_close_removes : forall l w push l' w',
+  exec IClose l w = Some (push, l', w') ->
+  lookup (l_url l) (s_docs w') = None /\ lastword w' (l_url l) = PEmpty.
+Print Assumptions C09_close_removes.
+
+Example C09_close_wins_nonvacuous :
+  exists y, run cw_prefix (init cw_history (world0 0)) = Some y /\
+    (forall hs, In hs (y_flight y) -> l_lang (h_loc hs) = None) /\ y_flight y <> [] /\
+    forallb not_open (y_todo y) = true /\
+    lookup (UFile 0 0) (s_docs (y_world y)) = None /\ lastword (y_world y) (UFile 0 0) = PEmpty /\
+    exists y', run cw_suffix y = Some y' /\ quiescentb y' = true /\ length (s_log (y_world y')) = 3.
+Proof. exact close_wins_applies. Qed.
